@@ -103,13 +103,14 @@ theorem sem_holder_release_enabled (p : Prog) (hp : okProg p = true) (n : Nat) (
 def Programs.all : List (String × Prog) :=
   [("syncx.Limit", Programs.limitClient), ("syncx.TimeoutLimit", Programs.timeoutLimitClient),
    ("threading.TaskRunner", Programs.runner), ("rest/handler.MaxConnsHandler", Programs.maxConns),
-   ("mr.executeMappers", Programs.executeMappers), ("fx.walkLimited", Programs.walkLimited)]
+   ("mr.executeMappers", Programs.executeMappers), ("fx.walkLimited", Programs.walkLimited),
+   ("syncx.Guard", Programs.barrierGuard)]
 
 /-- every site obeys the discipline: acquire before the guarded function (and before `go`), release
 reachable from BOTH exits of the guarded function (release-in-defer), nothing held at the end. -/
 theorem sites_disciplined : ∀ x ∈ Programs.all, okProg x.2 = true := by decide
 
-/-- **C05 for the six semaphore sites**: at no reachable instant more than `n` holders inside the guarded region. -/
+/-- **C05 for the semaphore sites**: at no reachable instant more than `n` holders inside the guarded region. -/
 theorem sites_cap (name : String) (p : Prog) (hx : (name, p) ∈ Programs.all) (n : Nat) (s : St)
     (h : Reach p n s) (l : List Tid) (hl : l.Nodup) (hin : ∀ t ∈ l, inCrit p s t = true) : l.length ≤ n :=
   sem_cap p (sites_disciplined _ hx) n s h l hl hin
@@ -211,6 +212,91 @@ theorem workers_wait_means_none_running (p : Prog) (hp : p = Programs.executeMap
       next => cases hc
     have := tracks_pos hw t hW
     omega
+
+/-! ## 2b. RoutineGroup / WorkerGroup / Barrier -/
+
+/-- **`RoutineGroup.Wait` returning means every function started with `Run`/`RunSafe` has ended** (normally
+or by panic: `Done` is deferred), for any number of calls in any interleaving. -/
+theorem routineGroup_wait_means_done (n : Nat) (s : St) (h : Reach Programs.routineGroup n s) (hz : s.wg = 0)
+    (t : Tid) : inCrit Programs.routineGroup s t = false := by
+  have hw := reach_wg (p := Programs.routineGroup) (by decide) h
+  cases hc : inCrit Programs.routineGroup s t
+  · rfl
+  · exfalso
+    have hW : W Programs.routineGroup (s.pc t) = true := by
+      unfold inCrit at hc
+      split at hc
+      next r hr =>
+        rw [W_of_row hr]
+        have key : ∀ r ∈ Programs.routineGroup, isUser r.instr = true → r.inWg = true := by decide
+        exact key r (List.mem_of_getElem? hr) hc
+      next => cases hc
+    have := tracks_pos hw t hW
+    omega
+
+/-- **`WorkerGroup.Start` with `workers = k`**: its loop makes exactly `k` `RunSafe` calls (tied:
+`for i < wg.workers`), i.e. only `k` threads of the model ever act — at no instant are more than `k` jobs
+running, whatever the interleaving and whichever of them panic. -/
+theorem workerGroup_cap (n k : Nat) (s : St) (h : ReachK Programs.routineGroup n k s)
+    (l : List Tid) (hl : l.Nodup) (hin : ∀ t ∈ l, inCrit Programs.routineGroup s t = true) : l.length ≤ k := by
+  apply nodup_lt_length hl
+  intro t ht
+  rcases Nat.lt_or_ge t k with hlt | hge
+  · exact hlt
+  · exfalso
+    have h0 := reachK_untouched h t hge
+    have := hin t ht
+    simp [inCrit, h0, Programs.routineGroup, isUser] at this
+
+/-- … and when its `group.Wait()` returns, all `k` jobs have ended. -/
+theorem workerGroup_start_returns_after_all (n k : Nat) (s : St) (h : ReachK Programs.routineGroup n k s)
+    (hz : s.wg = 0) (t : Tid) : inCrit Programs.routineGroup s t = false :=
+  routineGroup_wait_means_done n s (reachK_reach h) hz t
+
+/-- non-vacuity: three `RunSafe` calls, two jobs running at once, one of them panics, `wg` is 3 then. -/
+example :
+    (runSched Programs.routineGroup (St.init 1)
+        [(0, false), (0, false), (0, false), (0, false), (1, false), (1, false), (1, false), (1, false),
+         (2, false), (2, false), (2, false), (0, true)]).map
+      (fun s => (inCrit Programs.routineGroup s 0, inCrit Programs.routineGroup s 1, s.wg))
+      = some (false, true, 3) := by decide
+
+/-- **`syncx.Barrier.Guard` / `syncx.Guard`: mutual exclusion** (a mutex is a limiter of capacity 1, released
+in a `defer`): two callers are never inside `fn` at once, also after panics. -/
+theorem barrier_mutual_exclusion (s : St) (h : Reach Programs.barrierGuard 1 s) (t u : Tid)
+    (ht : inCrit Programs.barrierGuard s t = true) (hu : inCrit Programs.barrierGuard s u = true) : t = u := by
+  apply Classical.byContradiction
+  intro hne
+  have := sem_cap Programs.barrierGuard (by decide) 1 s h [t, u] (by simp [hne]) (by
+    intro x hx
+    simp only [List.mem_cons, List.not_mem_nil, or_false] at hx
+    rcases hx with rfl | rfl <;> assumption)
+  simp at this
+
+/-! ## 2c. configuration decision tables -/
+
+/-- `WithWorkers(k)` never yields a capacity below 1 (so `n ≥ 1` holds for mr/fx whatever is configured),
+is the identity from 1 on, and floors everything else to `minWorkers = 1`. -/
+theorem effWorkers_spec (k : Int) :
+    1 ≤ effWorkers k ∧ (1 ≤ k → effWorkers k = k) ∧ (k ≤ 0 → effWorkers k = 1) := by
+  unfold effWorkers
+  refine ⟨?_, ?_, ?_⟩ <;> split <;> omega
+
+/-- the REST engine's per-route connection cap: a limit exists iff the middleware is on and
+`MaxConns > 0`, and then it is exactly `MaxConns`. -/
+theorem engineCap_spec (on : Bool) (m : Int) :
+    (engineCap on m = none ↔ (on = false ∨ m ≤ 0)) ∧ (∀ n, engineCap on m = some n → on = true ∧ 0 < m ∧ (n : Int) = m) := by
+  unfold engineCap
+  constructor
+  · cases on <;> simp
+  · intro n h
+    cases on
+    · simp at h
+    · simp only [if_true] at h
+      split at h
+      · cases h
+      · injection h with h
+        exact ⟨rfl, by omega, by omega⟩
 
 /-! ## 3. the limiting object by itself: any callers, no contract -/
 
